@@ -1,8 +1,10 @@
 package types
 
 import (
+	"bytes"
 	"encoding/json"
 	"fmt"
+	"sort"
 
 	"github.com/pokt-network/pocket-core/codec"
 	"github.com/pokt-network/pocket-core/crypto"
@@ -355,6 +357,15 @@ func NormalizeRewardDelegators(
 			RewardShare: rewardShare,
 		})
 	}
+	// Go randomizes map iteration: fix the order, because the callers pay the
+	// delegators one after another and the order in which new accounts are created
+	// determines the shape (and root hash) of the state tree.
+	sort.Slice(normalized, func(i, j int) bool {
+		if c := bytes.Compare(normalized[i].Address, normalized[j].Address); c != 0 {
+			return c < 0
+		}
+		return normalized[i].RewardShare < normalized[j].RewardShare
+	})
 	return normalized, nil
 }
 
